@@ -22,20 +22,22 @@ type SchedRec struct {
 
 // Auc is a flattened auction record (both types).
 type Auc struct {
-	ID          uint64
-	Type        types.AuctionType
-	Auctioneer  string
-	SellingAddr string
-	PayingAddr  string
-	VestingAddr string
-	StartPriceM *big.Int
-	SellDenom   string
-	SellAmt     *big.Int
-	PayDenom    string
-	Schedules   []SchedRec
-	Start       time.Time
-	EndTimes    []time.Time
-	Status      types.AuctionStatus
+	ID         uint64
+	Type       types.AuctionType
+	Auctioneer string // canonical spelling of the stored address
+	// AuctioneerRaw is the address string exactly as stored.
+	AuctioneerRaw string
+	SellingAddr   string
+	PayingAddr    string
+	VestingAddr   string
+	StartPriceM   *big.Int
+	SellDenom     string
+	SellAmt       *big.Int
+	PayDenom      string
+	Schedules     []SchedRec
+	Start         time.Time
+	EndTimes      []time.Time
+	Status        types.AuctionStatus
 	// fixed price
 	RemainingDenom string
 	Remaining      *big.Int
@@ -82,22 +84,32 @@ func (a *Auc) Canon() string {
 	return s
 }
 
+// spelled renders the stored spelling of an address when it is not the canonical one.
+func spelled(canon, raw string) string {
+	if raw == "" || raw == canon {
+		return ""
+	}
+	return "(stored as " + raw + ")"
+}
+
 func tfmt(t time.Time) string { return t.UTC().Format(time.RFC3339Nano) }
 
 // BidRec is a flattened bid record.
 type BidRec struct {
 	Auction uint64
 	ID      uint64
-	Bidder  string
-	Type    types.BidType
-	PriceM  *big.Int
-	Denom   string
-	Amt     *big.Int
-	Matched bool
+	Bidder  string // canonical spelling of the stored address
+	// BidderRaw is the address string exactly as stored.
+	BidderRaw string
+	Type      types.BidType
+	PriceM    *big.Int
+	Denom     string
+	Amt       *big.Int
+	Matched   bool
 }
 
 func (b *BidRec) Canon() string {
-	return fmt.Sprintf("bid a=%d id=%d bidder=%s type=%d price=%s coin=%s%s matched=%v", b.Auction, b.ID, b.Bidder, b.Type, b.PriceM, b.Amt, b.Denom, b.Matched)
+	return fmt.Sprintf("bid a=%d id=%d bidder=%s%s type=%d price=%s coin=%s%s matched=%v", b.Auction, b.ID, b.Bidder, spelled(b.Bidder, b.BidderRaw), b.Type, b.PriceM, b.Amt, b.Denom, b.Matched)
 }
 
 // Req is the reservation the bid requires: the worth coin, or ceil(amount*price).
@@ -118,13 +130,14 @@ func (b *BidRec) QtyAt(payDenom string, pM *big.Int) *big.Int {
 
 // AllowedRec is an allow-list entry.
 type AllowedRec struct {
-	Auction uint64
-	Bidder  string
-	Max     *big.Int
+	Auction   uint64
+	Bidder    string // canonical
+	BidderRaw string
+	Max       *big.Int
 }
 
 func (a *AllowedRec) Canon() string {
-	return fmt.Sprintf("allowed a=%d bidder=%s max=%s", a.Auction, a.Bidder, a.Max)
+	return fmt.Sprintf("allowed a=%d bidder=%s%s max=%s", a.Auction, a.Bidder, spelled(a.Bidder, a.BidderRaw), a.Max)
 }
 
 // VQRec is a vesting instalment.
@@ -176,7 +189,8 @@ func flatten(a types.AuctionI) *Auc {
 	}
 	r.ID = ba.Id
 	r.Type = ba.Type
-	r.Auctioneer = ba.Auctioneer
+	r.Auctioneer = CanonAddr(ba.Auctioneer)
+	r.AuctioneerRaw = ba.Auctioneer
 	r.SellingAddr = ba.SellingReserveAddress
 	r.PayingAddr = ba.PayingReserveAddress
 	r.VestingAddr = ba.VestingReserveAddress
@@ -197,7 +211,7 @@ func flatten(a types.AuctionI) *Auc {
 
 // FlattenBid converts a stored bid.
 func FlattenBid(b types.Bid) *BidRec {
-	return &BidRec{Auction: b.AuctionId, ID: b.Id, Bidder: b.Bidder, Type: b.Type, PriceM: DecM(b.Price), Denom: b.Coin.Denom, Amt: IntB(b.Coin.Amount), Matched: b.IsMatched}
+	return &BidRec{Auction: b.AuctionId, ID: b.Id, Bidder: CanonAddr(b.Bidder), BidderRaw: b.Bidder, Type: b.Type, PriceM: DecM(b.Price), Denom: b.Coin.Denom, Amt: IntB(b.Coin.Amount), Matched: b.IsMatched}
 }
 
 // TakeSnap reads the complete module state and every bank balance.
@@ -226,11 +240,11 @@ func TakeSnap(b *Base, ctx sdk.Context) *Snap {
 		return false, nil
 	}))
 	must(k.AllowedBidder.Walk(ctx, nil, func(key collections.Pair[uint64, sdk.AccAddress], ab types.AllowedBidder) (bool, error) {
-		s.Allowed = append(s.Allowed, &AllowedRec{Auction: key.K1(), Bidder: ab.Bidder, Max: IntB(ab.MaxBidAmount)})
+		s.Allowed = append(s.Allowed, &AllowedRec{Auction: key.K1(), Bidder: CanonAddr(ab.Bidder), BidderRaw: ab.Bidder, Max: IntB(ab.MaxBidAmount)})
 		return false, nil
 	}))
 	must(k.VestingQueue.Walk(ctx, nil, func(key collections.Pair[uint64, time.Time], vq types.VestingQueue) (bool, error) {
-		s.VQ = append(s.VQ, &VQRec{Auction: vq.AuctionId, Auctioneer: vq.Auctioneer, Denom: vq.PayingCoin.Denom, Amt: IntB(vq.PayingCoin.Amount), Release: vq.ReleaseTime.UTC(), Released: vq.Released})
+		s.VQ = append(s.VQ, &VQRec{Auction: vq.AuctionId, Auctioneer: CanonAddr(vq.Auctioneer), Denom: vq.PayingCoin.Denom, Amt: IntB(vq.PayingCoin.Amount), Release: vq.ReleaseTime.UTC(), Released: vq.Released})
 		return false, nil
 	}))
 	must(k.BidSeq.Walk(ctx, nil, func(id uint64, v uint64) (bool, error) { s.BidSeq[id] = v; return false, nil }))
